@@ -100,10 +100,13 @@ func (t *List) CoerceIn(v interface{}) (interface{}, error) {
 		if co, _ := t.Base.(InCoercer); co != nil {
 			var cv interface{}
 			var err error
+			// The argument is not modified, it might be a literal of a
+			// parsed request or belong to the caller.
+			coerced := make([]interface{}, len(list))
 			for i := len(list) - 1; 0 <= i; i-- {
 				cv, err = co.CoerceIn(list[i])
 				if err == nil {
-					list[i] = cv
+					coerced[i] = cv
 				} else {
 					var gerr *Error
 					if errors.As(err, &gerr) {
@@ -115,7 +118,7 @@ func (t *List) CoerceIn(v interface{}) (interface{}, error) {
 					return nil, err
 				}
 			}
-			return v, nil
+			return coerced, nil
 		}
 	}
 	return nil, newCoerceErr(v, t.Name())
